@@ -100,15 +100,15 @@ EXTRA = {
     "C07": "Back-pressure runs with a blocking Take() consumer and a delivery-progress monitor; 'no limit' buffer sizes. Other instantiations through the overflow list; idle periods of about 100 loader intervals; the back-pressure verdict is taken on logical time. SetBufferSizeMaximum on the live queue (shrinking below / growing above what is buffered).",
     "C08": "Phased bursts above 1024 held values; a self-refilling BufferedChannelQueue under the wrapper; one LinkedListQueue behind both wrappers in phases. A user queue embedding ChannelQueue; other instantiations; wrapped structures that panic once.",
     "C09": "Two pools on one job queue; slow panic handlers; standby-0 pools always sampled; boundary timeouts through ScheduleWithTimeout / InvokeWithTimeout. Jobs ending with runtime.Goexit or run-time errors; stand-by size above the maximum.",
-    "C10": "Values published on derived publishers; re-subscription of copied subscription values; deliveries pending on a busy SubscribeOn handler while subscriptions change. Subscribe before/after SubscribeOn; Unsubscribe on a foreign publisher.",
-    "C11": "Branching compositions; pending deliveries of a counting MonadIO; carried values that are themselves MonadIOs; re-configuration in flight. Inner monads with their own handlers; the package default Handler as first call of the process; 8 concurrent evaluations; every program under the stuck detector.",
-    "C12": "Close from the running work with buffered items and blocked senders; closed while busy; timed-out Asks as messages. IsClosed polled during traffic; first submissions to thousands of fresh mailboxes racing each other; one sender interleaving AskChannel and Send; Close from outside with a backlog.",
-    "C13": "Caller supplied reply channels; near-timeout then long-timeout histories (old timer-channel semantics selected); non-positive timeouts; requests queued behind a busy actor. Ask objects older than their timeout; scatter/gather of several AskChannel calls; late hand-over to a busy unbuffered actor.",
+    "C10": "Values published on derived publishers; re-subscription of copied subscription values; deliveries pending on a busy SubscribeOn handler while subscriptions change. Subscribe before/after SubscribeOn; Unsubscribe on a foreign publisher. SubscribeOn configured on the origin (or a middle level) before Map chains are derived.",
+    "C11": "Branching compositions; pending deliveries of a counting MonadIO; carried values that are themselves MonadIOs; re-configuration in flight. Inner monads with their own handlers; the package default Handler as first call of the process; 8 concurrent evaluations; every program under the stuck detector. Evaluation by a coroutine (Cor.YieldFromIO): effect on the ObserveOn handler's goroutine, once.",
+    "C12": "Close from the running work with buffered items and blocked senders; closed while busy; timed-out Asks as messages. IsClosed polled during traffic; first submissions to thousands of fresh mailboxes racing each other; one sender interleaving AskChannel and Send; Close from outside with a backlog. Spawn trees with a closed root / middle node: the actors below stay open and process later messages.",
+    "C13": "Caller supplied reply channels; near-timeout then long-timeout histories (old timer-channel semantics selected); non-positive timeouts; requests queued behind a busy actor. Ask objects older than their timeout; scatter/gather of several AskChannel calls; late hand-over to a busy unbuffered actor. One ask object sent again with AskChannel (polling client), one-shot asks in between.",
     "C14": "Target held back until its request channel is full; YieldFromIO whose effect uses YieldFrom; back-to-back Start calls. Callers preceding Start(); volume runs of 150000+ requests per caller against an echoing target. YieldFromIO over eight owner-configured IO shapes (ObserveOn / SubscribeOn on one or two handlers).",
     "C15": "Caller completing inside its own YieldFrom; job queue closed under an open pool; pool churn (thousands of short-lived pools closed under load). After-close probes at every fill level. Offer / Put producers on a completely full queue while Close arrives.",
-    "C16": "Long lists; nested PMap; one option value reused across calls. Interface result types with nil results; zero-size result types; caller slices with spare capacity.",
+    "C16": "Long lists; nested PMap; one option value reused across calls. Interface result types with nil results; zero-size result types; caller slices with spare capacity. A callback that ends its goroutine with runtime.Goexit: the call still returns, at-most-once, no invented result.",
     "C17": "Connection-level faults on the first round trip only; response bodies up to 4 MiB on loopback; slice / map / value body types. Path parameters with Error()/String() methods; literal braces in templates; a serializer whose reader fails half way.",
-    "C18": "Two instances on one client; the held client with a replaced Transport; long histories with redirects and many refused requests. EOF-class transport faults and timeout-kind interceptor errors in long histories; 2..16 goroutines through one instance.",
+    "C18": "Two instances on one client; the held client with a replaced Transport; long histories with redirects and many refused requests. EOF-class transport faults and timeout-kind interceptor errors in long histories; 2..16 goroutines through one instance. A SimpleHTTP installed as http.DefaultTransport combined with SetHTTPClient of default clients.",
     "C19": "Second and mixed record types; forked builders; extreme keys; signed zeros for stability. Same-named record types; invalid UTF-8 keys; append-and-sort-again lists.",
     "C20": "MarkDone / Result inside the curried function; nested sum types; panicking effects; Equal patterns on pointers. Typed nil map/func/chan probes; invalid UTF-8 against literal regexes; duplicate Equal patterns; named-type, []byte and Stringer probes.",
 }
